@@ -369,6 +369,24 @@ var httpListings = [][]string{{"alpha", "Beta"}, {"alpha", "gamma"}, {"delta"}}
 var httpSpellings = []string{"alpha", "ALPHA", "Beta", "beta", "gamma", "delta", "alpha:latest", "nope"}
 var httpHealth = []int{0b111, 0b011, 0b100, 0b101, 0b000}
 
+type spVariant struct {
+	sp  string
+	dup int // > 0: the body carries the model member twice, padded to about this many bytes
+}
+
+func spellingVariants(hm int) []spVariant {
+	var out []spVariant
+	for _, sp := range httpSpellings {
+		out = append(out, spVariant{sp, 0})
+	}
+	if hm == 0b111 || hm == 0b011 {
+		for _, sp := range []string{"alpha", "gamma", "delta", "nope"} {
+			out = append(out, spVariant{sp, 24}, spVariant{sp, 70000}, spVariant{sp, 300000})
+		}
+	}
+	return out
+}
+
 func openAIListing(names []string) string {
 	type m struct {
 		ID     string `json:"id"`
@@ -480,7 +498,8 @@ func runHTTPOnce(c *vlib.Cases, hc httpCfg, mu *sync.Mutex, last bool) bool {
 			}
 			s.SetStatus(b.Name, st)
 		}
-		for _, sp := range httpSpellings {
+		for _, spx := range spellingVariants(hm) {
+			sp, dupKey := spx.sp, spx.dup
 			for _, route := range []string{"proxy", "provider"} {
 				path := "/olla/proxy/v1/chat/completions"
 				if route == "provider" {
@@ -490,6 +509,17 @@ func runHTTPOnce(c *vlib.Cases, hc httpCfg, mu *sync.Mutex, last bool) bool {
 					b.Taken()
 				}
 				body, _ := json.Marshal(map[string]any{"model": sp, "messages": []map[string]string{{"role": "user", "content": "hi"}}})
+				if dupKey > 0 {
+					// the "model" member written twice (RFC 8259 allows it; a front proxy that overrides the model by appending a
+					// member produces it): Go's decoder, Ollama and the Python / JS decoders of the other backends keep the LAST
+					// one, so that is the model the request names — for small and for large documents alike
+					decoy := "delta"
+					if sp == "delta" {
+						decoy = "alpha"
+					}
+					pad := strings.Repeat("lorem ipsum ", dupKey/12)
+					body = []byte(`{"model":"` + decoy + `","messages":[{"role":"user","content":"` + pad + `"}],"model":"` + sp + `"}`)
+				}
 				// every other request is sent with Transfer-Encoding: chunked (no declared length): the model named in
 				// the body must be routed the same way however the body is framed
 				httpSeq++
